@@ -142,7 +142,7 @@ func (h *genericContextualizer) Execute(ctx heimdall.Context, sub *subject.Subje
 	}
 
 	if h.ttl > 0 {
-		cacheKey = h.calculateCacheKey(sub, vals, payload)
+		cacheKey = h.calculateCacheKey(ctx, sub, vals, payload)
 		if entry, err := cch.Get(ctx.AppContext(), cacheKey); err == nil {
 			var cd contextualizerData
 
@@ -353,6 +353,7 @@ func (h *genericContextualizer) readResponse(ctx heimdall.Context, resp *http.Re
 }
 
 func (h *genericContextualizer) calculateCacheKey(
+	ctx heimdall.Context,
 	sub *subject.Subject,
 	values map[string]string,
 	payload string,
@@ -367,6 +368,22 @@ func (h *genericContextualizer) calculateCacheKey(
 	hash.Write(stringx.ToBytes(h.id))
 	hash.Write(stringx.ToBytes(strings.Join(h.fwdHeaders, ",")))
 	hash.Write(stringx.ToBytes(strings.Join(h.fwdCookies, ",")))
+
+	// the values of the headers and cookies forwarded to the endpoint influence its response
+	for _, name := range h.fwdHeaders {
+		hash.Write(stringx.ToBytes(ctx.Request().Header(name)))
+		hash.Write([]byte{0})
+	}
+
+	for _, name := range h.fwdCookies {
+		hash.Write(stringx.ToBytes(ctx.Request().Cookie(name)))
+		hash.Write([]byte{0})
+	}
+
+	// templates used in the endpoint definition may reference the outputs of the previous pipeline steps
+	rawOutputs, _ := json.Marshal(ctx.Outputs())
+	hash.Write(rawOutputs)
+
 	hash.Write(stringx.ToBytes(payload))
 	hash.Write(ttlBytes)
 	hash.Write(sub.Hash())
